@@ -35,13 +35,14 @@ type env struct {
 	refF  map[string][][]string // doc+flags -> per-page fragment strings
 	refB  map[string]int        // doc+calls+op -> IsMultiColumn/IsCharacterLevel of a fresh extractor (-1 failed, 0, 1)
 	refC  map[string]string     // doc+calls+op -> canonical Document/Chunks of a fresh extractor
+	refP  map[string][]string   // doc+flags+op -> per-page payload of a list-valued terminal operation
 }
 
 func newEnv(c *hx.Ctx) *env {
 	dir := filepath.Join(c.OutDir, "files")
 	os.RemoveAll(dir)
 	os.MkdirAll(dir, 0o755)
-	return &env{c: c, dir: dir, files: map[string]string{}, refT: map[string][]string{}, refF: map[string][][]string{}, refB: map[string]int{}, refC: map[string]string{}}
+	return &env{c: c, dir: dir, files: map[string]string{}, refT: map[string][]string{}, refF: map[string][][]string{}, refB: map[string]int{}, refC: map[string]string{}, refP: map[string][]string{}}
 }
 
 // path writes the document (once) and returns its file name.
@@ -341,6 +342,35 @@ func (e *env) refFrags(d docParams) ([][]string, bool) {
 	return out, true
 }
 
+// perPageList: the terminal operations whose result is a list built page by page
+// (lines, paragraphs, blocks, elements of the selected pages one page after the
+// other), so that the result for a selection is the concatenation of the
+// per-page lists.
+var perPageList = map[string]bool{"l": true, "a": true, "o": true, "e": true, "b": true}
+
+// refPayloads: the texts of the list a terminal operation returns for every
+// single page, extracted with the same options by an extractor of its own.
+func (e *env) refPayloads(d docParams, fl []call, k string) ([]string, bool) {
+	key := flagsKey(d, fl) + "|" + k
+	if r, ok := e.refP[key]; ok {
+		return r, r != nil
+	}
+	out := []string{}
+	for p := 1; p <= d.N; p++ {
+		x := chainExt(tabula.Open(e.path(d)), append(append([]call(nil), fl...), call{K: "P", A: []int{p}}))
+		payload, err, pn := runLifeOp(x, k)
+		if err != nil || pn != "" {
+			e.c.Note("reference %s of page %d failed: %v %s", lifeOps[k].name, p, err, pn)
+			runOp(x, "x")
+			e.refP[key] = nil
+			return nil, false
+		}
+		out = append(out, payload)
+	}
+	e.refP[key] = out
+	return out, true
+}
+
 func joinNonEmpty(ts []string) string {
 	var ne []string
 	for _, t := range ts {
@@ -555,6 +585,21 @@ func (e *env) selCase(d docParams, cs []call) {
 			return true
 		},
 		func() bool { return len(od.doc.Pages) == n }, true)
+	// the pages of the document are the pages of the single-page documents (same options), numbers and content
+	if !od.failed() && od.doc != nil && !sp.mustErr && !sp.mayErr && (len(d.Chap) > 0 || (len(fl) > 0 && e.extra%2 == 0)) {
+		if refs, ok := e.refPayloads(d, fl, "u"); ok {
+			var w strings.Builder
+			for _, pg := range sp.pages {
+				w.WriteString(refs[pg-1])
+			}
+			want, got := w.String(), docCanon(od.doc)
+			c.Check("C10/selection-document", got == want, kase, func() string {
+				return fmt.Sprintf("Document: selection %q on a %s: the pages of the result are not pages %v of the document as each comes out when extracted on its own with the same options; %s",
+					callsTokens(cs), d.describe(), sp.pages, firstDiff(want, got))
+			})
+			c.Count("per-page-list:Document")
+		}
+	}
 	if !od.failed() && !sp.mustErr && od.doc != nil && !eqInts(docNumbers(od.doc), sp.pages) && len(od.doc.Pages) == len(sp.pages) {
 		c.Count("doc-number-mismatch")
 	}
@@ -642,6 +687,21 @@ func (e *env) selCase(d docParams, cs []call) {
 					return fmt.Sprintf("%s: valid selection %q (pages %v of %d) failed: %v", name, callsTokens(cs), sp.pages, n, err)
 				})
 			}
+			// a list-valued result is the per-page lists of the selected pages, one after the other
+			if perPageList[k] && err == nil && !sp.mustErr && !sp.mayErr && (len(d.Chap) > 0 || e.extra%2 == 0) {
+				if refs, ok := e.refPayloads(d, fl, k); ok {
+					var w strings.Builder
+					for _, pg := range sp.pages {
+						w.WriteString(refs[pg-1])
+					}
+					want := w.String()
+					c.Check("C10/selection-"+strings.ToLower(name), payload == want, kase, func() string {
+						return fmt.Sprintf("%s: selection %q on a %s: the result is not the results of pages %v, each extracted on its own with the same options, one after the other; %s",
+							name, callsTokens(cs), d.describe(), sp.pages, firstDiff(want, payload))
+					})
+					c.Count("per-page-list:" + name)
+				}
+			}
 			// the pages the operation worked on, read back from the tokens of its result
 			if isPageBearing(k) && !d.mixed() && !d.hasBlank() {
 				impl := "err"
@@ -683,6 +743,20 @@ func (e *env) selCase(d docParams, cs []call) {
 	}
 	if len(fl) > 0 {
 		c.Count("sel:with-options")
+	}
+	if len(d.Chap) > 0 && !sp.mustErr && !sp.mayErr {
+		excl := false
+		for _, f := range fl {
+			excl = excl || f.K == "H" || f.K == "F" || f.K == "B"
+		}
+		size := "1-3"
+		switch {
+		case len(sp.pages) == n:
+			size = "all"
+		case len(sp.pages) >= 4:
+			size = "4+"
+		}
+		c.Count(fmt.Sprintf("chapters:exclude=%v:selected=%s-of-%d", excl, size, n))
 	}
 	c.Case("sel|"+d.key()+"|"+callsTokens(cs), !sp.mustErr && !ot.failed() && ot.text != "")
 }
@@ -1225,6 +1299,7 @@ func pagesOrMal(d docParams, ts []tok) ([]int, bool) {
 func Run(c *hx.Ctx) {
 	c.Rep.Rule = "multi-page PDFs from an independent writer (1-9 pages, blank pages, flat or nested page tree, repeated header/footer lines, a unique token per body line; " +
 		"pages of one document may differ in layout: full-width lines, two columns of 3-34 lines each, lines shown glyph by glyph - page 1 plain and later pages not, the reverse, uniform, free mix); " +
+		"longer documents (4-14 pages) divided into chapters whose pages repeat a running head and/or foot of the chapter only, selected by chapter, window, scattered subset or whole with ExcludeHeaders/ExcludeFooters/ExcludeHeadersAndFooters; " +
 		"selections spelled as Pages/PageRange chains in any order with duplicates, overlaps, empty Pages(), inverted and out-of-range ranges, interleaved option calls; " +
 		"operation sequences (derive, PageCount, IsMultiColumn, IsCharacterLevel, Text, Fragments, Document, Chunks, Close, Close Close) on extractors sharing one base (Open or FromReader) over good, missing, garbage, mismatched and page-tree-less files, " +
 		"with non-terminal calls before, between and after derivations and terminal calls on the base, on derived extractors and on their siblings; every successful answer is compared with the per-page results of extractors that have no history; " +
@@ -1283,6 +1358,29 @@ func Run(c *hx.Ctx) {
 		}
 		for j := 0; j < c.N(8, 14); j++ {
 			cs := withFlags(r, genSelCalls(r, d.N))
+			e.selCase(d, cs)
+		}
+	}
+	// 2b. documents divided into chapters with running heads/feet of their own x selections of
+	// every size around the chapters x the Exclude* options (and the other options)
+	nc := c.N(60, 600)
+	for i := 0; i < nc; i++ {
+		r := c.Rng.Fork(uint64(4_000_000 + i))
+		d := genChapDoc(r, thorough)
+		if i%20 == 0 {
+			settle()
+		}
+		for j := 0; j < c.N(6, 10); j++ {
+			var cs []call
+			switch {
+			case j%3 == 2:
+				cs = withFlags(r, genSelCalls(r, d.N))
+			case r.Chance(1, 3):
+				cs = withFlags(r, withExclude(r, genChapSel(r, d)))
+			default:
+				cs = withExclude(r, genChapSel(r, d))
+			}
+			e.extra = 0 // every terminal operation on these cases
 			e.selCase(d, cs)
 		}
 	}
